@@ -27,7 +27,12 @@ git checkout -q -- . && git clean -fdq -e target
 git apply $D/patch.diff
 # (one library test, test_single_channel_multiple_mpp, can dead-lock on its own thread hand-offs when the
 # machine is heavily loaded: bounded by a timeout and, if that hits, re-run without it)
+if [ "$PKG" != "lightning" ]; then
+  # a change outside the lightning crate: that crate's own tests are the relevant "existing tests"
+  r3="[$PKG] $(timeout 1200 cargo test -p $PKG --offline 2>&1 | grep -a "test result" | head -1)"
+else
 r3=$(timeout 1200 cargo test -p lightning --lib --offline 2>&1 | grep -a "test result" | head -1)
+fi
 if [ -z "$r3" ]; then
   pkill -f "$WT/target/debug/deps/lightning-" 2>/dev/null
   r3="(timed out once; re-run skipping test_single_channel_multiple_mpp) $(timeout 1200 cargo test -p lightning --lib --offline -- --skip test_single_channel_multiple_mpp 2>&1 | grep -a "test result" | head -1)"
